@@ -95,6 +95,8 @@ def models(ctx):
                note="reader of the pinned MmapVec::open (magic only, zeros beyond the end of the file): violates the contract")
     ctx.tlc_mc("MC_DurableFile", cfg="MC_DurableFile_lencheck_inplace_all%s.cfg" % q, expect="Conforms", workers=W,
                note="length-check-only reader under in-place rewrite: torn rewrites are accepted (no checksum)")
+    if not ctx.thorough:
+        return
     ctx.tlc_mc("MC_DurableFile", cfg="MC_DurableFile_lencheck_inplace_truncate_q.cfg", workers=W,
                note="length-check-only reader conforms under truncation faults")
     ctx.tlc_mc("MC_DurableFile", cfg="MC_DurableFile_lencheck_replace_all_q.cfg", workers=W,
